@@ -90,17 +90,17 @@ func materializeFlat(es []flatEntry, dir string) error {
 			if err := os.Symlink(e.St.Linkname, p); err != nil {
 				return err
 			}
+		case e.St.Linkname != "":
+			// a further name of an inode — regular file, device or fifo alike
+			if err := os.Link(filepath.Join(dir, e.St.Linkname), p); err != nil {
+				return err
+			}
+			continue
 		case m&os.ModeNamedPipe != 0, m&os.ModeDevice != 0, m&os.ModeSocket != 0:
 			if err := unix.Mknod(p, um, int(unix.Mkdev(uint32(e.St.Devmajor), uint32(e.St.Devminor)))); err != nil {
 				return err
 			}
 		default:
-			if e.St.Linkname != "" {
-				if err := os.Link(filepath.Join(dir, e.St.Linkname), p); err != nil {
-					return err
-				}
-				continue
-			}
 			if err := os.WriteFile(p, e.Content, 0600); err != nil {
 				return err
 			}
@@ -116,7 +116,7 @@ func materializeFlat(es []flatEntry, dir string) error {
 	}
 	for i := len(es) - 1; i >= 0; i-- {
 		e := es[i]
-		if os.FileMode(e.St.Mode)&os.ModeType == 0 && e.St.Linkname != "" {
+		if m := os.FileMode(e.St.Mode); !m.IsDir() && m&os.ModeSymlink == 0 && e.St.Linkname != "" {
 			continue
 		}
 		if err := lutimes(filepath.Join(dir, e.St.Path), e.St.ModTime); err != nil {
@@ -188,7 +188,26 @@ func c05Header(st *types.Stat) []byte {
 
 type digester interface{ Digest() digest.Digest }
 
-// input: (differ mode order ((stat content)...)A ((stat content)...)B)
+// c05Filter: the receiver's Filter (ReceiveOpt.Filter: handed to the differ AND to the
+// DiskWriter), selectable by code (mirrors Glue.RecvG.wf_of): 0 none; 1 umask 022; 2 ownership
+// reset to 7:8; 3 umask 027 + mtime truncated to whole seconds.
+func c05Filter(code int) fsutil.FilterFunc {
+	switch code {
+	case 1:
+		return func(p string, s *types.Stat) bool { s.Mode &^= 0022; return true }
+	case 2:
+		return func(p string, s *types.Stat) bool { s.Uid, s.Gid = 7, 8; return true }
+	case 3:
+		return func(p string, s *types.Stat) bool {
+			s.Mode &^= 0027
+			s.ModTime -= s.ModTime % 1e9
+			return true
+		}
+	}
+	return nil
+}
+
+// input: (differ mode order ((stat content)...)A ((stat content)...)B [filter])
 //
 //	mode 0 = fresh (destination walked), 1 = merge (empty destination walker)
 //	order 0 = contents served as soon as requested; k>0 = all contents held back until the
@@ -222,6 +241,10 @@ func runRecvAbs(in Sx) (out Sx) {
 func recvAbs(ctx context.Context, in Sx) Sx {
 	differ, mode, order := in.L[0].Int(), in.L[1].Int(), in.L[2].U64()
 	A, Bl := sxEntries(in.L[3]), sxEntries(in.L[4])
+	filter := 0
+	if len(in.L) > 5 {
+		filter = in.L[5].Int()
+	}
 	work := WorkDir("c05-")
 	defer os.RemoveAll(work)
 	dest := filepath.Join(work, "d")
@@ -260,7 +283,7 @@ func recvAbs(ctx context.Context, in Sx) Sx {
 	if mode == 0 {
 		lower = walked
 	}
-	reqs, notifs, failed, hang := c05Sync(ctx, dest, lower, listB, contentB, differ, order)
+	reqs, notifs, failed, hang := c05Sync(ctx, dest, lower, listB, contentB, differ, order, c05Filter(filter))
 	if hang != "" {
 		return L(N(0xffff), S(hang))
 	}
@@ -300,7 +323,7 @@ func recvAbs(ctx context.Context, in Sx) Sx {
 // contentB at once (order 0) or held back and completed in the order-th pseudo-random order.
 // Returns the content requests (path order), the notifications in the order observed, whether
 // the transfer failed, and a non-empty string when the real code hung.
-func c05Sync(ctx context.Context, dest string, lower, listB []*types.Stat, contentB map[string][]byte, differ int, order uint64) (reqs []string, notifs []Sx, failed bool, hang string) {
+func c05Sync(ctx context.Context, dest string, lower, listB []*types.Stat, contentB map[string][]byte, differ int, order uint64, filter fsutil.FilterFunc) (reqs []string, notifs []Sx, failed bool, hang string) {
 	var mu sync.Mutex
 	gated := order > 0
 	gates := map[string]chan struct{}{}
@@ -310,6 +333,7 @@ func c05Sync(ctx context.Context, dest string, lower, listB []*types.Stat, conte
 	dctx, dcancel := context.WithCancel(ctx)
 	defer dcancel()
 	dw, err := fsutil.NewDiskWriter(dctx, dest, fsutil.DiskWriterOpt{
+		Filter: filter,
 		AsyncDataCb: func(ctx context.Context, p string, wc io.WriteCloser) error {
 			mu.Lock()
 			reqs = append(reqs, p)
@@ -373,7 +397,7 @@ func c05Sync(ctx context.Context, dest string, lower, listB []*types.Stat, conte
 		return nil, nil, true, "diskwriter"
 	}
 	expected := 0
-	derr := fsutil.VerifDoubleWalkDiff(dctx, lower, listB, nil, fsutil.DiffType(differ),
+	derr := fsutil.VerifDoubleWalkDiff(dctx, lower, listB, filter, fsutil.DiffType(differ),
 		func(k fsutil.ChangeKind, p string, fi os.FileInfo, err error) error {
 			e := dw.HandleChange(k, p, fi, err)
 			if e == nil && k != fsutil.ChangeKindDelete {
@@ -498,7 +522,7 @@ func c02Resync(ctx context.Context, in Sx) Sx {
 	if err != nil {
 		return L(N(0xffff), S("walk: "+err.Error()))
 	}
-	_, _, failed1, hang := c05Sync(ctx, dest, w1, listB, contentB, differ, order)
+	_, _, failed1, hang := c05Sync(ctx, dest, w1, listB, contentB, differ, order, nil)
 	if hang != "" {
 		return L(N(0xffff), S(hang))
 	}
@@ -509,7 +533,7 @@ func c02Resync(ctx context.Context, in Sx) Sx {
 	if err != nil {
 		return L(N(0xffff), S("walk 2: "+err.Error()))
 	}
-	reqs2, notifs2, failed2, hang := c05Sync(ctx, dest, w2, listB, contentB, 0, order)
+	reqs2, notifs2, failed2, hang := c05Sync(ctx, dest, w2, listB, contentB, 0, order, nil)
 	if hang != "" {
 		return L(N(0xffff), S(hang))
 	}
@@ -535,6 +559,40 @@ func fixSizes(es []flatEntry) {
 			e.St.Size = int64(len(e.Content)) // later member of a link group: full size, as the real walker reports it
 		default:
 			e.St.Size = 0
+		}
+	}
+}
+
+func c05StripX(ns []*MNode) {
+	for _, n := range ns {
+		n.Stat.Xattrs = nil
+		c05StripX(n.Kids)
+	}
+}
+
+// c05FixLinks: a hard-link entry (regular file, device or fifo with a Linkname) must name an
+// earlier non-link entry of that kind that still exists, and carries its metadata and content
+// (one inode)
+func c05FixLinks(es []flatEntry) {
+	ok := map[string]*flatEntry{}
+	for i := range es {
+		e := &es[i]
+		if m := os.FileMode(e.St.Mode); m.IsDir() || m&os.ModeSymlink != 0 {
+			continue
+		}
+		if e.St.Linkname == "" {
+			ok[e.St.Path] = e
+			continue
+		}
+		if t, found := ok[e.St.Linkname]; found {
+			p := e.St.Path
+			ln := e.St.Linkname
+			e.St = t.St.CloneVT()
+			e.St.Path, e.St.Linkname = p, ln
+			e.Content = t.Content
+		} else {
+			e.St.Linkname = ""
+			ok[e.St.Path] = e
 		}
 	}
 }
@@ -568,46 +626,11 @@ func genRecvCases(g *Gen, kind uint64, n int, directedRelink bool) {
 			va = nil
 			cls = "from-empty"
 		}
-		stripX := func(ns []*MNode) {
-			var rec func(ns []*MNode)
-			rec = func(ns []*MNode) {
-				for _, n := range ns {
-					n.Stat.Xattrs = nil
-					rec(n.Kids)
-				}
-			}
-			rec(ns)
-		}
-		stripX(va)
-		stripX(vb)
+		c05StripX(va)
+		c05StripX(vb)
 		A, Bl := flattenView(va), flattenView(vb)
-		fixLinks := func(es []flatEntry) {
-			// a hard-link entry must name an earlier regular non-link entry that still exists
-			ok := map[string]*flatEntry{}
-			for i := range es {
-				e := &es[i]
-				if os.FileMode(e.St.Mode)&os.ModeType != 0 {
-					continue
-				}
-				if e.St.Linkname == "" {
-					ok[e.St.Path] = e
-					continue
-				}
-				if t, found := ok[e.St.Linkname]; found {
-					// same inode: same metadata and content
-					p := e.St.Path
-					ln := e.St.Linkname
-					e.St = t.St.CloneVT()
-					e.St.Path, e.St.Linkname = p, ln
-					e.Content = t.Content
-				} else {
-					e.St.Linkname = ""
-					ok[e.St.Path] = e
-				}
-			}
-		}
-		fixLinks(A)
-		fixLinks(Bl)
+		c05FixLinks(A)
+		c05FixLinks(Bl)
 		fixSizes(A)
 		fixSizes(Bl)
 		if directedRelink && r.Chance(6) {
@@ -651,9 +674,18 @@ func genRecvCases(g *Gen, kind uint64, n int, directedRelink bool) {
 		if r.Chance(3) {
 			// directed: a hard-link entry naming a missing path or a directory: os.Link fails,
 			// HandleChange returns an error (model: apply_map = None)
+			// (not a path that holds a symbolic link, device or fifo in the old destination: os.Link
+			// would succeed on those and give that special inode a second name — outside the model,
+			// see Model/AbsDest.v)
+			special := map[string]bool{}
+			for _, e := range A {
+				if m := os.FileMode(e.St.Mode); m&(os.ModeSymlink|os.ModeDevice|os.ModeNamedPipe|os.ModeSocket) != 0 {
+					special[e.St.Path] = true
+				}
+			}
 			var dirs []string
 			for _, e := range Bl {
-				if os.FileMode(e.St.Mode).IsDir() {
+				if os.FileMode(e.St.Mode).IsDir() && !special[e.St.Path] {
 					dirs = append(dirs, e.St.Path)
 				}
 			}
@@ -686,6 +718,12 @@ func genRecvCases(g *Gen, kind uint64, n int, directedRelink bool) {
 			continue
 		}
 		in := L(NI(differ), NI(mode), N(order), entriesSx(A), entriesSx(Bl))
+		if kind == 0x0501 && r.Chance(25) {
+			// the receiver's Filter (differ + DiskWriter): the disk gets the rewritten stat, the
+			// notification and the hashed header keep the stat as sent
+			in = L(NI(differ), NI(mode), N(order), entriesSx(A), entriesSx(Bl), NI(1+r.Intn(3)))
+			cls += "+filter"
+		}
 		out := runRecvAbs(in)
 		if len(out.L) == 2 && out.L[0].Kind == 'n' && out.L[0].U64() == 0xfffe {
 			skipped++ // the listing could not be materialised (generator artefact)
@@ -702,9 +740,16 @@ func genRecvCases(g *Gen, kind uint64, n int, directedRelink bool) {
 
 // c05EmitCase runs one explicit case and emits it (same nontriviality rule as genRecvCases).
 func c05EmitCase(g *Gen, kind uint64, differ, mode int, order uint64, A, Bl []flatEntry, cls string) bool {
+	return c05EmitCaseF(g, kind, differ, mode, order, 0, A, Bl, cls)
+}
+
+func c05EmitCaseF(g *Gen, kind uint64, differ, mode int, order uint64, filter int, A, Bl []flatEntry, cls string) bool {
 	fixSizes(A)
 	fixSizes(Bl)
 	in := L(NI(differ), NI(mode), N(order), entriesSx(A), entriesSx(Bl))
+	if filter != 0 {
+		in = L(NI(differ), NI(mode), N(order), entriesSx(A), entriesSx(Bl), NI(filter))
+	}
 	out := runRecvAbs(in)
 	if len(out.L) == 2 && out.L[0].Kind == 'n' && out.L[0].U64() == 0xfffe {
 		return false
@@ -983,7 +1028,159 @@ func c02ResyncDirected(g *Gen) {
 	g.Note("resync_directed_cases", n)
 }
 
+// c05Filtered: directed histories for the receiver's Filter: the destination already holds the
+// directories (and files) of the source, whose metadata was edited at the source (a pure
+// metadata change of a kept directory: the in-place branch of HandleChange), or the transfer
+// runs in merge mode (every entry an add over what is there), with every filter.  The
+// notification and its digest must carry the stat AS SENT, the disk the filtered one.
+func c05Filtered(g *Gen) {
+	r := g.Rng
+	n := 0
+	base := func() []flatEntry {
+		return []flatEntry{
+			{&types.Stat{Path: "d", Mode: uint32(os.ModeDir | 0777), Uid: 1, Gid: 2, ModTime: 1700000000e9}, nil},
+			{&types.Stat{Path: "d/f", Mode: 0666, Uid: 1, Gid: 2, ModTime: 1600000001_500000000}, []byte("ff")},
+			{&types.Stat{Path: "d/s", Mode: uint32(os.ModeDir | 0775), Uid: 3, ModTime: 1700000001e9}, nil},
+			{&types.Stat{Path: "d/s/g", Mode: 0664, ModTime: 1600000002_250000000}, []byte("g")},
+			{&types.Stat{Path: "e", Mode: uint32(os.ModeDir | 0755), ModTime: 1700000002e9}, nil},
+			{&types.Stat{Path: "k", Mode: 0644, ModTime: 1600000003e9}, []byte("keep")},
+		}
+	}
+	clone := func(es []flatEntry) []flatEntry {
+		out := make([]flatEntry, len(es))
+		for i, e := range es {
+			out[i] = flatEntry{e.St.CloneVT(), e.Content}
+		}
+		return out
+	}
+	for filter := 0; filter <= 3; filter++ {
+		for edit := 0; edit < 5; edit++ {
+			for mode := 0; mode < 2; mode++ {
+				A, Bl := base(), clone(base())
+				switch edit {
+				case 0: // directory mode edited at the source
+					Bl[0].St.Mode ^= 0050
+				case 1: // directory owner
+					Bl[2].St.Uid += 4
+					Bl[2].St.Gid += 5
+				case 2: // both directories and a file
+					Bl[0].St.Gid += 1
+					Bl[4].St.Mode ^= 0700
+					Bl[1].St.ModTime += 7_000000001
+				case 3: // nothing edited (merge: every entry is an add over what is there)
+				case 4: // the destination lacks one of the directories
+					A = append(A[:2:2], A[4:]...)
+				}
+				order := uint64(0)
+				if r.Bool() {
+					order = 1 + uint64(r.Intn(1000))
+				}
+				cls := fmt.Sprintf("directed-filter%d-kept-dirs", filter)
+				if mode == 1 {
+					cls += "-merge"
+				}
+				if c05EmitCaseF(g, 0x0501, 0, mode, order, filter, A, Bl, cls) {
+					n++
+				}
+			}
+		}
+	}
+	g.Note("directed_filter_cases", n)
+}
+
+// c05SpecialLinks: LINK GROUPS OF SPECIAL FILES — a fifo, a character device and a block device
+// with two or three names across directories, next to a regular link group — as the source,
+// over a destination that lacks them / holds them / holds every name as an inode of its own /
+// holds some names / holds a name as a regular file.  A further name of a device or fifo is a
+// hard link like any other (os.Link): one inode at the destination.  emit(A, B, class).
+func c05SpecialLinks(g *Gen, emit func(A, Bl []flatEntry, cls string)) {
+	r := g.Rng
+	mk := func(p string, mode os.FileMode, maj, min int64, mt int64) flatEntry {
+		return flatEntry{&types.Stat{Path: p, Mode: uint32(mode), Uid: 1, Devmajor: maj, Devminor: min, ModTime: mt * 1e9}, nil}
+	}
+	link := func(p string, to flatEntry) flatEntry {
+		st := to.St.CloneVT()
+		st.Path, st.Linkname = p, to.St.Path
+		return flatEntry{st, to.Content}
+	}
+	for variant := 0; variant < 6; variant++ {
+		for three := 0; three < 2; three++ {
+			d1 := flatEntry{&types.Stat{Path: "d1", Mode: uint32(os.ModeDir | 0755), ModTime: 1700000000e9}, nil}
+			d2 := flatEntry{&types.Stat{Path: "d2", Mode: uint32(os.ModeDir | 0750), ModTime: 1700000001e9}, nil}
+			b := mk("d1/b", os.ModeDevice|0600, 7, int64(variant), 1600000001)
+			f := flatEntry{&types.Stat{Path: "d1/f", Mode: 0644, ModTime: 1600000002e9}, []byte("shared")}
+			p := mk("d1/p", os.ModeNamedPipe|0640, 0, 0, 1600000003)
+			q := mk("d1/q", os.ModeDevice|os.ModeCharDevice|0620, 1, 3, 1600000004)
+			Bl := []flatEntry{d1, b, f, p, q, d2, link("d2/b2", b), link("d2/p2", p)}
+			if three == 1 {
+				Bl = append(Bl, link("d2/q2", q))
+			}
+			Bl = append(Bl, mk("lone", os.ModeNamedPipe|0600, 0, 0, 1600000005), link("zf", f), link("zq", q))
+			if three == 1 {
+				Bl = append(Bl, link("zp", p))
+			}
+			var A []flatEntry
+			cls := "directed-special-link-groups-"
+			switch variant {
+			case 0:
+				cls += "fresh"
+			case 1:
+				A = c02CloneEntries(Bl)
+				cls += "same"
+			case 2:
+				A = c02CloneEntries(Bl)
+				for _, e := range A {
+					if os.FileMode(e.St.Mode)&os.ModeSymlink == 0 {
+						e.St.Linkname = ""
+					}
+				}
+				cls += "split"
+			case 3:
+				for _, e := range c02CloneEntries(Bl) {
+					if os.FileMode(e.St.Mode).IsDir() || r.Chance(60) {
+						A = append(A, e)
+					}
+				}
+				cls += "names-missing"
+			case 4:
+				A = c02CloneEntries(Bl)
+				for _, e := range A {
+					if e.St.Linkname != "" && r.Bool() {
+						e.St = &types.Stat{Path: e.St.Path, Mode: 0600, ModTime: 1600000009e9}
+						e.Content = []byte("old")
+					}
+				}
+				cls += "name-retyped"
+			case 5:
+				A = c02CloneEntries(Bl)
+				for _, e := range A {
+					m := os.FileMode(e.St.Mode)
+					if m&os.ModeType != 0 && !m.IsDir() && e.St.Linkname == "" && r.Bool() {
+						e.St.Mode ^= 0022
+						e.St.Uid += 2
+					}
+				}
+				cls += "group-metadata"
+			}
+			sortEntries(Bl)
+			sortEntries(A)
+			c05FixLinks(A)
+			emit(A, c02CloneEntries(Bl), cls)
+		}
+	}
+}
+
 func genC05(g *Gen) {
+	c05SpecialLinks(g, func(A, Bl []flatEntry, cls string) {
+		for _, mode := range []int{0, 1} {
+			c := cls
+			if mode == 1 {
+				c += "-merge"
+			}
+			c05EmitCase(g, 0x0501, 0, mode, uint64(g.Rng.Intn(3)), c02CloneEntries(A), c02CloneEntries(Bl), c)
+		}
+	})
+	c05Filtered(g)
 	c05DirReplaced(g)
 	c05LinkMeta(g, 0x0501)
 	genRecvCases(g, 0x0501, g.Vol(700, 12000), true)
